@@ -1,21 +1,21 @@
 #!/bin/bash
 # run the property's quick check against a seeded change in an isolated scratch
 # worktree (VF_REPO), record what fired.   usage: tools/seedcheck.sh C02 [tier]
-ID=$1; TIER=${2:-quick}; WT=/tmp/sc_$ID; DST=/verif/seeded/$ID
+SID=$1; ID=${SID:0:3}; TIER=${2:-quick}; WT=/tmp/sc_$SID; DST=/verif/seeded/$SID
 git -C /repo worktree remove --force $WT 2>/dev/null
 git -C /repo worktree add --detach $WT HEAD -q || exit 2
 git -C $WT apply $DST/patch.diff || { echo "patch does not apply to HEAD"; exit 2; }
 cd /verif
 VF_REPO=$WT ./vf check $ID --tier $TIER > $DST/check_output.txt 2>&1; RC=$?
-python3 - "$ID" "$RC" "$TIER" <<'PY'
+python3 - "$ID" "$RC" "$TIER" "$SID" <<'PY'
 import sys, json, re
-pid, rc, tier = sys.argv[1], int(sys.argv[2]), sys.argv[3]
-out = open('/verif/seeded/%s/check_output.txt' % pid).read()
+pid, rc, tier, sid = sys.argv[1], int(sys.argv[2]), sys.argv[3], sys.argv[4]
+out = open('/verif/seeded/%s/check_output.txt' % sid).read()
 keys = re.findall(r'^VIOLATION .*?key=(\S+)', out, re.M)
 last = [l for l in out.splitlines() if l.startswith(pid + ' check')]
 json.dump({"property": pid, "tier": tier, "rc": rc, "caught": rc == 1, "violation_keys": keys,
-           "summary": last[-1] if last else ""}, open('/verif/seeded/%s/check_result.json' % pid, 'w'), indent=1)
-print(pid, "rc", rc, "caught", rc == 1, keys[:6])
+           "summary": last[-1] if last else ""}, open('/verif/seeded/%s/check_result.json' % sid, 'w'), indent=1)
+print(sid, "rc", rc, "caught", rc == 1, keys[:6])
 PY
 git -C /repo worktree remove --force $WT
 H=$(python3 -c "import hashlib;print(hashlib.sha1('$WT'.encode()).hexdigest()[:10])")
